@@ -193,6 +193,83 @@ func exactNumbers(value any) (any, error) {
 	return value, nil
 }
 
+/*
+checkJSONFieldNames asserts that the names of all members of the JSON objects
+in the passed data, which are decoded into fields of the passed (struct) type
+or of struct types nested in it, are spelled exactly like the json tags of
+these fields.  The decoder of encoding/json matches member names with fields
+case-insensitively, hence its DisallowUnknownFields option lets a member
+"Name" pass for a field tagged "name", although member names are case-sensitive
+and the in-toto specification knows no such member.  Values of an unexpected
+JSON type are left to the decoder to report.
+*/
+func checkJSONFieldNames(data []byte, typ reflect.Type) error {
+	switch typ.Kind() {
+	case reflect.Ptr:
+		return checkJSONFieldNames(data, typ.Elem())
+	case reflect.Struct:
+		var members map[string]json.RawMessage
+		if err := json.Unmarshal(data, &members); err != nil {
+			return nil
+		}
+		fields := make(map[string]reflect.Type)
+		collectJSONFields(typ, fields)
+		for name, value := range members {
+			fieldType, ok := fields[name]
+			if !ok {
+				return fmt.Errorf("json: unknown field %q", name)
+			}
+			if err := checkJSONFieldNames(value, fieldType); err != nil {
+				return err
+			}
+		}
+	case reflect.Slice, reflect.Array:
+		var elements []json.RawMessage
+		if err := json.Unmarshal(data, &elements); err != nil {
+			return nil
+		}
+		for _, element := range elements {
+			if err := checkJSONFieldNames(element, typ.Elem()); err != nil {
+				return err
+			}
+		}
+	case reflect.Map:
+		var entries map[string]json.RawMessage
+		if err := json.Unmarshal(data, &entries); err != nil {
+			return nil
+		}
+		for _, entry := range entries {
+			if err := checkJSONFieldNames(entry, typ.Elem()); err != nil {
+				return err
+			}
+		}
+	}
+	return nil
+}
+
+// collectJSONFields maps the json tag names of the fields of the passed struct
+// type, including those of embedded structs, to the types of these fields.
+func collectJSONFields(typ reflect.Type, fields map[string]reflect.Type) {
+	for i := 0; i < typ.NumField(); i++ {
+		field := typ.Field(i)
+		tag := field.Tag.Get("json")
+		if field.Anonymous && tag == "" && field.Type.Kind() == reflect.Struct {
+			collectJSONFields(field.Type, fields)
+			continue
+		}
+		name := tag
+		if idx := strings.Index(tag, ","); idx != -1 {
+			name = tag[:idx]
+		}
+		if name == "" {
+			name = field.Name
+		}
+		if name != "-" {
+			fields[name] = field.Type
+		}
+	}
+}
+
 func loadPayload(payloadBytes []byte) (any, error) {
 	var payload map[string]any
 	if err := json.Unmarshal(payloadBytes, &payload); err != nil {
@@ -212,6 +289,9 @@ func loadPayload(payloadBytes []byte) (any, error) {
 		// are kept (and signed, verified and dumped) as they are written
 		decoder.UseNumber()
 		if err := decoder.Decode(&link); err != nil {
+			return nil, fmt.Errorf("error decoding payload: %w", err)
+		}
+		if err := checkJSONFieldNames(payloadBytes, reflect.TypeOf(link)); err != nil {
 			return nil, fmt.Errorf("error decoding payload: %w", err)
 		}
 		for _, opaque := range []map[string]any{link.ByProducts, link.Environment} {
@@ -234,6 +314,9 @@ func loadPayload(payloadBytes []byte) (any, error) {
 		decoder := json.NewDecoder(strings.NewReader(string(payloadBytes)))
 		decoder.DisallowUnknownFields()
 		if err := decoder.Decode(&layout); err != nil {
+			return nil, fmt.Errorf("error decoding payload: %w", err)
+		}
+		if err := checkJSONFieldNames(payloadBytes, reflect.TypeOf(layout)); err != nil {
 			return nil, fmt.Errorf("error decoding payload: %w", err)
 		}
 
